@@ -48,6 +48,11 @@ T = {
             'All renderings must parse to the reference encoding; print->parse and tokenize->parse must be the identity for all four phases; indexing must agree with plain list indexing; both back ends. Operators derived by scalar factors must themselves print, tokenize and re-parse; a parsed object can be mutated without affecting later parses; coverage-guided atheris campaign on paulialg.py.'),
 }
 
+LATER = ('; plus the generated variants added during sensitivity testing: call histories on long-lived objects (second calls, edits of returned '
+         'objects, rejected calls), argument forms (NumPy scalars, boolean lists, strided / column-major arrays, empty lists), registers of 9-100 qubits')
+LATER_TEXT = ('Facets added per sensitivity round, with the seeded change each one answers, are tabulated in DESIGN.md 7.4-7.15; the evidence file lists '
+              'every facet with its case counts.')
+
 NOTE = ('Trusted base: numpy linear algebra for the dense oracle; harness/ref.py (validated against dense matrices by harness/selftest.py '
         'before every run); Hypothesis as case generator.  The library is imported from /repo (working tree) and JIT-compiled in-process.')
 
@@ -59,6 +64,8 @@ def main():
         pid = 'C%02d' % i
         if pid in T and os.path.exists(os.path.join(HERE, 'checks', pid.lower() + '.py')):
             tech, text = T[pid]
+            tech += LATER
+            text += ' ' + LATER_TEXT
             checks.append({
                 'property_id': pid,
                 'quick_cmd': './run check %s --tier quick' % pid,
